@@ -391,7 +391,12 @@ class MultiVector:
             return self
         keys_out, func = self._callable
         if kwargs:
-            args = [v for k, v in sorted(kwargs.items(), key=lambda x: x[0])]
+            # Bind by name, in the order in which the callable expects its symbols.
+            names = sorted(symbol.name for symbol in self.free_symbols)
+            missing = [name for name in names if name not in kwargs]
+            if missing:
+                raise TypeError(f'No value was given for the symbols {missing}.')
+            args = [kwargs[name] for name in names]
         values = func(args)
         return self.fromkeysvalues(self.algebra, keys_out, values)
 
